@@ -68,7 +68,11 @@ StepUpdate(u) ==
         ELSE /\ st' = [p \in Peer |-> IF p \in spawn THEN "waiting" ELSE s1[p]]
              /\ inflight' = inflight \cup spawn /\ asked' = asked \cup spawn /\ term' = "no"
   /\ learned' = learned \cup u.heard
-  /\ UNCHANGED <<cancelled, phase, failed, result, completed, fq, fdone, maybe>>
+  \* When this update ends the search, failures still sitting unprocessed in the update channel are never
+  \* applied (the run loop stops reading): like at a cancellation they move from `failed` to `maybe`.
+  /\ LET lost == IF term' = "no" THEN {} ELSE {v.p : v \in {w \in chan' : ~w.ok}} IN
+       /\ failed' = failed \ lost /\ maybe' = maybe \cup (failed \cap lost)
+  /\ UNCHANGED <<cancelled, phase, result, completed, fq, fdone>>
 
 \* The run loop sees the cancelled context.  Failures still sitting unprocessed
 \* in the update channel are lost to the race between the cancellation and the
